@@ -14,6 +14,7 @@ import (
 	"encoding/json"
 	"fmt"
 	"math/rand"
+	randv2 "math/rand/v2"
 	"os"
 	"path/filepath"
 	"regexp"
@@ -230,6 +231,9 @@ func makeDocs(c *fw.Ctx, n int) (docs []docFile, bad []docFile) {
 			lay.InfoUTF16 = i%2 == 0 // document metadata in UTF-16 (read by Document / Chunks / ToMarkdown)
 			b := pdfw.Build(r.Int63(), lay, []*pdfw.Doc{g.Doc})
 			data, ext, kind, desc = b.Bytes, ".pdf", "pdf", fmt.Sprintf("pdf %d pages filter=%s xref=%v", len(g.Doc.Leaves()), lay.Filter, lay.XRef)
+			if lay.InfoUTF16 {
+				desc += " info=utf16"
+			}
 		}
 		p := filepath.Join(dir, fmt.Sprintf("d%03d%s", i, ext))
 		os.WriteFile(p, data, 0o644)
@@ -312,53 +316,91 @@ func operandOnlyPDF() []byte {
 
 // ---- monitors ------------------------------------------------------------------
 
+// The monitors of the concurrent phase must not order the goroutines they watch: under
+// the race detector every atomic read-modify-write on a shared variable is a
+// release+acquire, so a shared counter bumped at op boundaries - or worse, inside the hook
+// that fires per operand - chains the goroutines' accesses into happens-before order and
+// hides the very races the phase exists to show. So, while goroutines run concurrently:
+// no shared counters; each goroutine notes the start and end of its operations
+// (monotonic clock reads) in a slice of its own, the in-flight histogram is computed
+// from these intervals after the round; the hook takes its yield decisions from the
+// runtime's per-thread random source and counts nothing.
 var (
-	inflight  int64
 	inflHist  [33]int64
-	hookCount [2]int64 // cs.operand, obj.get
-	yieldSeed uint64
+	hookCount [2]int64 // cs.operand, obj.get (sequential phases only)
 	yieldOn   int32
-	yields    int64
+	clock0    = time.Now()
 )
 
-func enter() {
-	n := atomic.AddInt64(&inflight, 1)
-	if n > 32 {
-		n = 32
+type span struct{ a, b int64 }
+
+func nowNS() int64 { return int64(time.Since(clock0)) }
+
+// enter/leave: the sequential phases (one operation in flight at a time).
+func enter() { inflHist[1]++ }
+func leave() {}
+
+// addOverlaps adds to the histogram, for every operation of a round, the largest number
+// of operations that were in flight together at some point during it.
+func addOverlaps(spans []span) {
+	type ev struct {
+		t int64
+		d int
 	}
-	atomic.AddInt64(&inflHist[n], 1)
+	evs := make([]ev, 0, 2*len(spans))
+	for _, s := range spans {
+		evs = append(evs, ev{s.a, 1}, ev{s.b, -1})
+	}
+	sort.Slice(evs, func(i, j int) bool {
+		if evs[i].t != evs[j].t {
+			return evs[i].t < evs[j].t
+		}
+		return evs[i].d < evs[j].d
+	})
+	// level over time, then per span the maximum level inside it
+	ts := make([]int64, len(evs))
+	lv := make([]int, len(evs))
+	cur := 0
+	for i, e := range evs {
+		cur += e.d
+		ts[i], lv[i] = e.t, cur
+	}
+	for _, s := range spans {
+		max := 1
+		i := sort.Search(len(ts), func(k int) bool { return ts[k] >= s.a })
+		for ; i < len(ts) && ts[i] < s.b; i++ {
+			if lv[i] > max {
+				max = lv[i]
+			}
+		}
+		if max > 32 {
+			max = 32
+		}
+		inflHist[max]++
+	}
 }
-func leave() { atomic.AddInt64(&inflight, -1) }
 
 func installHook(seed int64) {
-	yieldSeed = uint64(seed)*0x9e3779b97f4a7c15 + 1
-	var ctr uint64
 	verifhook.Set(func(name string, _ []int64) {
-		if name == "cs.operand" {
-			atomic.AddInt64(&hookCount[0], 1)
-		} else {
-			atomic.AddInt64(&hookCount[1], 1)
-		}
-		if atomic.LoadInt32(&yieldOn) == 0 {
+		if atomic.LoadInt32(&yieldOn) == 0 { // a load only: written once before the goroutines start
+			if name == "cs.operand" {
+				hookCount[0]++
+			} else {
+				hookCount[1]++
+			}
 			return
 		}
-		n := atomic.AddUint64(&ctr, 1)
-		x := (n + yieldSeed) * 0xbf58476d1ce4e5b9
-		x ^= x >> 29
+		x := randv2.Uint64() // per-thread source of the runtime, no shared state
 		switch x % 16 {
 		case 0, 1:
 			runtime.Gosched()
-			atomic.AddInt64(&yields, 1)
 		case 2:
-			if x%256 == 2 {
+			if (x>>8)%16 == 2 {
 				time.Sleep(20 * time.Microsecond)
-				atomic.AddInt64(&yields, 1)
 			}
 		}
 	})
 }
-
-// ---- the check --------------------------------------------------------------------
 
 func freshBaseline(c *fw.Ctx, paths []string, ops []string, rounds int) (baseResp, fw.Result) {
 	p := fw.NewPool(c, "c03", 1, 120*time.Second, 0)
@@ -722,6 +764,12 @@ func dynamic(rq dynReq) *dynResp {
 		g := []int{2, 4, 8, 16}[round%4]
 		// distinct documents per goroutine
 		perm := r.Perm(len(docs))
+		if round%4 == 3 {
+			// the metadata rounds take the documents whose metadata need decoding first
+			sort.SliceStable(perm, func(a, b int) bool {
+				return strings.Contains(docs[perm[a]].Desc, "info=utf16") && !strings.Contains(docs[perm[b]].Desc, "info=utf16")
+			})
+		}
 		type step struct {
 			d  docFile
 			op string
@@ -754,21 +802,27 @@ func dynamic(rq dynReq) *dynResp {
 			gi  int
 		}
 		outs := make([][]out, g)
+		spans := make([][]span, g)
 		for gi := 0; gi < g; gi++ {
 			wg.Add(1)
 			go func(gi int) {
 				defer wg.Done()
 				<-start
 				for _, s := range plans[gi] {
-					enter()
+					a := nowNS()
 					got := doOp(s.d.Path, s.op)
-					leave()
+					spans[gi] = append(spans[gi], span{a, nowNS()})
 					outs[gi] = append(outs[gi], out{s, got, gi})
 				}
 			}(gi)
 		}
 		close(start)
 		wg.Wait()
+		var all []span
+		for gi := range spans {
+			all = append(all, spans[gi]...)
+		}
+		addOverlaps(all)
 		for gi := range outs {
 			for _, o := range outs[gi] {
 				if o.s.d.Kind == "bad" {
@@ -788,7 +842,9 @@ func dynamic(rq dynReq) *dynResp {
 		}
 	}
 	rp.Hist = hist
-	rp.Hooks = map[string]int64{"cs.operand": atomic.LoadInt64(&hookCount[0]), "obj.get": atomic.LoadInt64(&hookCount[1]), "yields_injected": atomic.LoadInt64(&yields)}
+	// hook events are counted in the sequential phases only; in the concurrent rounds the hook
+	// yields (Gosched) at 2 of 16 events and sleeps 20 us at 1 of 256, and counts nothing
+	rp.Hooks = map[string]int64{"cs.operand(sequential phases)": hookCount[0], "obj.get(sequential phases)": hookCount[1], "yield_per_16_events_in_concurrent_rounds": 2}
 	return rp
 }
 
